@@ -19,11 +19,16 @@ echo "== existing tests with the change (demo skipped)"; go test -count=1 -skip 
 echo "== demo WITH change (must fail)"; go test -count=1 $DEMO > /tmp/$ID.with.log 2>&1; echo "exit=$?"; grep -E '^(--- FAIL|FAIL|ok)' /tmp/$ID.with.log | head -5
 echo "== demo WITHOUT change (must pass)"; git diff -- $FILES > /tmp/$ID.src.patch; git apply -R /tmp/$ID.src.patch; go test -count=1 $DEMO > /tmp/$ID.without.log 2>&1; echo "exit=$?"; grep -E '^(--- FAIL|FAIL|ok)' /tmp/$ID.without.log | head -5; git apply /tmp/$ID.src.patch
 } 2>&1 | tee $OUT/confirm.log
-# overlay
-python3 - "$W" $FILES > /dev/shm/me/ov-$ID.json <<'PY'
-import json,sys
-w=sys.argv[1]; print(json.dumps({"Replace":{"/repo/"+f: w+"/"+f for f in sys.argv[2:]}}))
-PY
+# overlay: the seeded hunks applied on top of /repo's CURRENT files (the worktree may predate later fix: commits)
+OVD=/dev/shm/me/ovfiles/$ID; rm -rf $OVD; mkdir -p $OVD
+REPL=""
+for f in $FILES; do
+  mkdir -p $OVD/$(dirname $f)
+  git diff -- $f > $OVD/$f.patch
+  if ! patch -s -o $OVD/$f /repo/$f < $OVD/$f.patch; then echo "PATCH DOES NOT APPLY to current /repo/$f" | tee -a $OUT/confirm.log; fi
+  REPL="$REPL \"/repo/$f\": \"$OVD/$f\","
+done
+echo "{\"Replace\": {${REPL%,}}}" > /dev/shm/me/ov-$ID.json
 cd /verif
 for P in "$@"; do
   echo "== check $P quick against the seeded change" | tee -a $OUT/confirm.log
